@@ -7,7 +7,7 @@ git -C /repo worktree remove --force $WT >/dev/null 2>&1
 git -C /repo worktree add -q $WT HEAD || exit 2
 ( cd $WT && git apply /verif/seeded/$SEED/patch.diff ) || { echo "patch does not apply"; git -C /repo worktree remove --force $WT; exit 2; }
 cd /verif
-VERIF_REPO=$WT ./check $PID --tier $TIER > /verif/.work/seed_$SEED.log 2>&1; RC=$?
-git -C /repo worktree remove --force $WT
+VERIF_REPO=$WT VERIF_WORK_SUFFIX=_seed_$SEED ./check $PID --tier $TIER > /verif/.work/seed_$SEED.log 2>&1; RC=$?
+git -C /repo worktree remove --force $WT; rm -rf /verif/.work/${PID}_seed_$SEED
 echo "seed=$SEED property=$PID exit=$RC"
 grep -E "^(VIOLATION|KNOWN-FINDING|NO-VERDICT|OK)" /verif/.work/seed_$SEED.log | grep -v KNOWN-FINDING | cut -c1-260 | head -6
